@@ -18,7 +18,7 @@ RULE = ("histories generated from one SplitMix64 state (VERIF_SEED): 4..60 calls
 ASSUMPTIONS = [
     "the Gallina model mirrors src/unionfind.rs (checked by differential run on generated histories only)",
     "capacity operations (reserve, shrink_to, ...) are the identity on the model; the harness calls the real ones",
-    "rank: u8 cannot overflow (a root of rank r has >= 2^r members); modelled as nat",
+    "rank is a nat in the model and a u8 in the crate: C19b_rank_bound proves every rank <= log2(len) <= 63 in every reachable state, so the u8 never overflows",
     "UnionFind::<u8>::new(n) for n > 256 wraps K::new and is outside the property's quantifier",
 ]
 
